@@ -61,7 +61,12 @@ def C01(ctx):
     reclaim.reclaim_after_unlink(ctx, [".hpp"])
     ctx.floor("K4.reclaim-after-unlink", 20)
     scheme_rules(ctx)
-    return ("Decides structural necessary conditions of safe reclamation.", "that the schemes are correct under all interleavings")
+    return ("Decides structural necessary conditions of 'not destroyed while guarded', per scheme: publish-then-fence and scan order (fence, adopt abandoned "
+            "nodes, gather, fence, reclaim) for hazard pointers/eras; validate-after-protect in acquire/acquire_if_equal (HP, LFRC) and era-after-load (HE); "
+            "destruction control-dependent on the protection test (HP binary_search, HE era interval, stamp <= tail stamp, LFRC claim); epoch schemes: "
+            "flag-fence-epoch order, three epochs, retire into the current epoch, orphan slot detached before the epoch that re-uses it is published; "
+            "LFRC counter modified by RMW only; exception safety of HE slot hand-over; every container reclaims only after a successful unlink; "
+            "memory orders of all reclaimers.", "that the schemes are correct under all interleavings and weak executions (stamp-it's list protocol only through its annotated edges)")
 
 
 def C02(ctx):
@@ -71,7 +76,11 @@ def C02(ctx):
     k1_rules(ctx, "C02")
     reclaim.reclaim_after_unlink(ctx, [".hpp"])
     scheme_rules(ctx)
-    return ("Decides structural necessary conditions of exactly-once destruction.", "eventual reclamation; exactly-once under racing adoption")
+    return ("Decides structural necessary conditions of 'destroyed exactly once by its own deleter, never leaked': deleter stored and own protection released "
+            "before a node enters a retire list; every thread_data destructor hands its pending nodes over before releasing its control block; protected "
+            "nodes are kept, unprotected ones deleted (exactly one branch each); lock-free list pushes re-link before every CAS attempt; adopted orphans are "
+            "re-filed or deleted only by the winner of the epoch CAS and handed back otherwise; stamp-it hands unreclaimable chunks back as a whole chain; "
+            "containers retire only after a successful unlink; memory orders.", "'eventually' (liveness of reclamation) and exactly-once under racing adoption")
 
 
 def C04(ctx):
@@ -184,14 +193,20 @@ def C17(ctx):
                 "STAMP.thread-exit", "LFRC.thread-exit", "LIST.")
     k1_rules(ctx, "C17")
     scheme_rules(ctx)
-    return ("Decides structural necessary conditions of control-block recycling.", "boundedness of bookkeeping as a quantity")
+    return ("Decides: control blocks are adopted (acquire-CAS from free) before a new one is allocated and released (release-store) at thread exit after the "
+            "hand-over of pending nodes; adopted blocks are re-initialised before first use (HP/HE free-list rebuild and counter balance, HE activate after "
+            "initialise, EBR/QSBR local epoch reset); predicates evaluated on foreign blocks contain the activity conjunct so exited threads never block "
+            "reclamation; thread-local LFRC free lists return to the global list; memory orders.", "boundedness of bookkeeping as a measured quantity; C01/C02 across record reuse under races")
 
 
 def C18(ctx):
     ctx.only = ("K1.", "HP.slots", "HE.slots", "HE.exception-safety", "HP.block-init", "HE.block-init")
     k1_rules(ctx, "C18")
     scheme_rules(ctx)
-    return ("Decides structural necessary conditions of hazard slot accounting.", "'at least K' as a count over all operation sequences")
+    return ("Decides: slot allocation takes need_more_* only on the null-hint edge and dereferences the hint afterwards; the static strategies report "
+            "exhaustion by throwing the documented exception on every path; released slots are re-linked into the hint list (HE only when the last guard "
+            "of the era leaves); reset releases; a new hazard era is allocated before the shared one is given up (exception safety); adopted blocks rebuild "
+            "the free list; memory orders.", "'at least K simultaneously' as a count over all guard operation sequences")
 
 
 def C12(ctx):
